@@ -115,7 +115,7 @@ impl<'a, 'b> B<'a, 'b> {
         for _ in 0..n {
             let cid = self.fresh();
             let name = format!("m{cid}");
-            let kind = if self.space.exotic { self.c.weighted(&[6, 2, 2, 1, 1, 1, 1, 1, 1, 1]) } else { 0 };
+            let kind = if self.space.exotic { self.c.weighted(&[6, 2, 2, 1, 1, 1, 1, 1, 1, 1, 1]) } else { 0 };
             match kind {
                 1 => {
                     // #[path] on a file-level declaration: relative to the directory of this file
@@ -215,11 +215,37 @@ impl<'a, 'b> B<'a, 'b> {
                     self.next_decl = "cfg_attr".into();
                     self.child_file(&d.clone(), &name, 0);
                 }
+                10 if self.space.exclusions => {
+                    // a skipped inline module: the declarations in its body are skipped code, the
+                    // files they name are not visited (in one case of three the file does not
+                    // exist at all, which must not be an error)
+                    let inner = format!("sk{cid}");
+                    let attr = *self.c.pick(&["#[rustfmt::skip]", "#[cfg_attr(rustfmt, rustfmt::skip)]"]);
+                    content.push_str(&format!("{attr}\nmod {inner} {{\n    pub fn  keep_{cid} ( ) {{ }}\n    mod {name};\n}}\n"));
+                    let base = join(&d, &inner);
+                    self.label("skip-on-inline-module");
+                    if self.c.chance(2, 3) {
+                        self.child_excluded(&base, &name, "");
+                    }
+                }
                 5 => {
                     // the same file reached twice
                     let target = format!("shared_{cid}.rs");
                     let name2 = format!("m{}", self.fresh());
-                    content.push_str(&format!("#[path = \"{target}\"]\nmod {name};\n#[path = \"{target}\"]\nmod {name2};\n"));
+                    // the second mount spells the same path differently in one case of two
+                    let target2 = if self.c.flip() {
+                        let up = format!("updir{cid}");
+                        let did = self.fresh();
+                        let body = self.unformatted_fn(did);
+                        let order = self.files.len();
+                        // (a file below it makes the directory exist)
+                        self.files.push(TreeFile { path: join(&join(&dir_of(&path), &up), &format!("decoy_{did}.rs")), content: body, role: Role::Decoy, order, decl: "decoy".into() });
+                        self.label("reached-twice-other-spelling");
+                        format!("{up}/../{target}")
+                    } else {
+                        target.clone()
+                    };
+                    content.push_str(&format!("#[path = \"{target}\"]\nmod {name};\n#[path = \"{target2}\"]\nmod {name2};\n"));
                     let shared = join(&dir_of(&path), &target);
                     let sd = dir_of(&shared);
                     self.label("reached-twice");
